@@ -124,12 +124,13 @@ def handleC15 : List String → Option String
     let ts ← parseNatList ts
     let ws := fromRdtypes ts
     some ("ok " ++ showWindows ws ++ " " ++ toHexP (bitmapWire ws))
-  | "c15.signzone" :: v :: origin :: signer :: nodes => do
+  | "c15.signzone" :: v :: cut :: origin :: signer :: nodes => do
     let v ← parseLastVariant v
+    let cut ← parseLastVariant cut
     let origin ← parseName origin
     let signer ← parseBool signer
     let nodes ← nodes.mapM parseZNode
-    let evts := signZoneNsec nsecConsts v origin nodes signer
+    let evts := signZoneNsec { nsecConsts with cutTypes := (cut == .intended) } v origin nodes signer
     some ("ok " ++ (if evts.isEmpty then "-" else " ".intercalate (evts.map showEvt)))
   | ["c15.nsecrdata", next, origin, ts] => do
     let next ← parseName next
